@@ -442,8 +442,10 @@ def run_controlled(sc, *, trace=False, tracing=False):
         guard = 0
         while ctl.is_running:
             guard += 1
-            if guard > 5000:
-                raise Bad("resume/no-progress", "5000 resumes did not finish the run")
+            if guard > 200_000:
+                # (each resume below is checked for progress; an always-true non-one-shot breakpoint legitimately pauses
+                # after every delivery, so the bound only has to exceed the longest generated run)
+                raise Bad("resume/no-progress", "200000 resumes did not finish the run")
             before = processed()
             seg_bps = dict(active_bps)
             seg_pause_at = set(pause_at)
